@@ -315,6 +315,18 @@ func (c *Ctx) valueReceivers(rule string, method string, rels ...string) int {
 			if !ok {
 				continue
 			}
+			if method == "MarshalJSON" {
+				// only the pairs whose text form is claimed to parse back: types that also read their own form
+				hasU := false
+				for i := 0; i < named.NumMethods(); i++ {
+					if named.Method(i).Name() == "UnmarshalJSON" {
+						hasU = true
+					}
+				}
+				if !hasU {
+					continue
+				}
+			}
 			for i := 0; i < named.NumMethods(); i++ {
 				m := named.Method(i)
 				if m.Name() != method {
